@@ -85,6 +85,16 @@ def const_clash(diags, const_name):
     return any(c in text for c in CONST_CAUSE) and const_name in text
 
 
+METHOD_CAUSE = ("shadowed by the local binding", "can't capture dynamic environment in a fn item",
+                "this function of the same name is available here")
+
+
+def method_clash(diags, name):
+    """rustc itself says that the user's function is hidden by a local binding of the generated code"""
+    text = " ".join((d.get("rendered") or "") + d.get("message", "") for d in diags)
+    return any(c in text for c in METHOD_CAUSE) and name in text
+
+
 class Names:
     """hostile name provider for the generator"""
 
@@ -195,6 +205,21 @@ EXTRA_BINDINGS = ["arg", "size", "data", "self_data", "other_data", "educe__f", 
                   "other_discriminant", "Educe__DebugField", "Educe__RawString"]
 
 
+# (trait, signature, body, field attribute, type-level traits)
+METHOD_TEMPLATES = [
+    ("Debug", "(v: &u8, fm: &mut ::core::fmt::Formatter<'_>) -> ::core::fmt::Result", "::core::fmt::Debug::fmt(v, fm)",
+     "Debug(method(%s))", "Debug"),
+    ("Clone", "(v: &u8) -> u8", "*v", "Clone(method(%s))", "Clone"),
+    ("PartialEq", "(l: &u8, r: &u8) -> bool", "*l == *r", "PartialEq(method(%s))", "PartialEq"),
+    ("PartialOrd", "(l: &u8, r: &u8) -> ::core::option::Option<::core::cmp::Ordering>", "::core::cmp::PartialOrd::partial_cmp(l, r)",
+     "PartialOrd(method(%s))", "PartialEq, PartialOrd"),
+    ("Ord", "(l: &u8, r: &u8) -> ::core::cmp::Ordering", "::core::cmp::Ord::cmp(l, r)",
+     "Ord(method(%s))", "PartialEq, Eq, PartialOrd, Ord"),
+    ("Hash", "<HH: ::core::hash::Hasher>(v: &u8, st: &mut HH)", "::core::hash::Hash::hash(v, st)", "Hash(method(%s))", "Hash"),
+    ("Into", "(v: u8) -> u16", "v as u16", "Into(u16, method(%s))", "Into(u16)"),
+]
+
+
 def directed(pool):
     """one definition per (harvested identifier, position): const / type parameter, field, variant, lifetime"""
     out = []
@@ -226,6 +251,17 @@ def directed(pool):
                     % (ALL9.replace("Debug", "Debug(name = true)"), x)))
         out.append(("variant", x,
                     "#[derive(::educe::Educe)]\n#[educe(%s)]\npub enum Ty {\n    Zz,\n    #[educe(Default)]\n    %s,\n}\n" % (ALL9, x)))
+        out.append(("variant", x,
+                    "#[derive(::educe::Educe)]\n#[educe(Debug, Clone, PartialEq, Deref, DerefMut, Into(u16))]\npub enum Ty {\n    %s(u16),\n"
+                    "    Zz { #[educe(Deref, DerefMut, Into(u16))] a: u16, b: u8 },\n}\n" % x))
+        # a user function named like a generated binding, used as a custom method through its bare name
+        for tr, sig, body, attr, head in METHOD_TEMPLATES:
+            fn = "pub fn %s%s { %s }\n" % (x, sig, body)
+            a = attr % x
+            out.append(("method-name/" + tr, x,
+                        fn + "#[derive(::educe::Educe)]\n#[educe(%s)]\npub struct Ty {\n    #[educe(%s)]\n    pub a: u8,\n    pub b: u8,\n}\n"
+                        "#[derive(::educe::Educe)]\n#[educe(%s)]\npub enum Ty2 {\n    V { #[educe(%s)] a: u8, b: u8 },\n    W(#[educe(%s)] u8, u8),\n}\n"
+                        % (head, a, head, a, a)))
         out.append(("lifetime", x,
                     "#[derive(::educe::Educe)]\n#[educe(Debug, Clone, PartialEq, Eq, PartialOrd, Ord, Hash, Deref)]\npub struct Ty<'%s> {\n    pub a: &'%s u8,\n}\n" % (x, x)))
     return out
@@ -258,6 +294,8 @@ def run_directed(chk, pool, ctxs):
             sig = "directed|%s|%s|%s" % (pos, x, e.get("code"))
             if pos == "const-param" and const_clash(dropped[cid], x):
                 sig = "const-param-clash|%s" % family(x)
+            if pos.startswith("method-name/") and method_clash(dropped[cid], x):
+                sig = "method-name-clash|%s|%s" % (pos.split("/")[1], family(x))
             chk.violation(sig, "an identifier the generated code uses internally breaks the derive when it names a %s: `%s` "
                           "(context %s): %s\n%s\n%s" % (pos, x, ctx, e["message"], e.get("rendered", "")[:1200], text),
                           {"case.rs": text, "diagnostics.json": json.dumps(dropped[cid], indent=1)})
